@@ -198,6 +198,9 @@ MUTANTS: dict[str, dict[str, list[tuple[str, str, str]]]] = {
 """, '')],
     },
     'C16': {
+        'abtest-select-unsynchronised': [('forml/application/_strategy.py',
+                                          '        with self._lock:  # selections arrive from a pool of threads',
+                                          '        if True:')],
         'descriptor-race': [('forml/runtime/_service/dispatch.py',
                              'if application not in self._descriptors:  # may have been registered concurrently',
                              'if application not in updates:')],
